@@ -28,6 +28,9 @@ CLAIMS = {
     'C14': dict(cat='proof',
         text="Model-independence of chain decoding, proved as non-interference on the current tree: on every path of ChainCoder::decode_symbol (loop-free; all paths enumerated) no term derived from the model argument, the model's results, the remainders head or the remainders backend reaches the quantile handed to the model, a value stored in the compressed head, a use of the compressed backend, the decision to report OutOfCompressedData, or any branch evaluated before such an event; helpers called with &mut self write only remainders-side places. Hence, by induction over calls, the quantile sequence, words consumed and exhaustion point are functions of the compressed data alone and symbol i = model_i(quantile_i) (termination-insensitive w.r.t. remainders-sink errors). The check downgrades itself to `other` if any obligation is unresolved. Not decided: that flipping bits inside chunk j changes only quantile j (bit-level dependence through the shifted head), nor that chunk i is exactly the i-th PRECISION-bit group (arithmetic).",
         tech="path-sensitive information-flow (non-interference) analysis over the value graph + callee frame summaries"),
+    'C13': dict(
+        text="Decides three structural clauses for all inputs/configurations: (1) in every chain-coder function that reads a backend, each path that continues after a read carries the Some/Continue decision of that read, so running out of compressed data or remainders can only surface as Err, never as data; (2) the two unsafe precision changers are called only where the static assertions of their dedicated safe wrappers are entailed by the caller's own assertions plus its branch (const-generic difference bounds); (3) ChainCoderHeads is private and built only by its constructor and the precision changers. Not decided: that decode followed by re-encode restores the words exactly (refill/flush thresholds and head arithmetic are value-level: a flipped comparison there is not detected).",
+        tech="error-discipline (must-establish) rule over enumerated paths; const-generic entailment with difference bounds; literal-site inventory; compile-fail witnesses (thorough)"),
 }
 
 NA = {
